@@ -89,7 +89,15 @@ let eval_hist (ops, script, lhs, rhs) =
       String.concat "!" (List.map (function M.Ok cs -> str_chunks cs | M.Panic k -> panic_str k) stages) in
     "E=" ^ str_edits es ^ " N=" ^ str_chunks c0 ^ " H=" ^ hs ^ " K=" ^ (if panicked then "-" else "111")
 
+let eval_unify s =
+  match M.unify_chunks (parse_chunks s) with
+  | M.Ok cs -> "U=" ^ str_chunks cs
+  | M.Panic k -> "U=" ^ panic_str k
+
 let eval inp =
+  match words inp with
+  | ["U"; s] -> eval_unify s
+  | _ ->
   match parse_hist inp with
   | Some h -> eval_hist h
   | None ->
@@ -200,7 +208,19 @@ let spec_hist (ops, _script, lhs, rhs) out =
     >>= fun () -> (if k = "111" then None else Some ("aliasing: d.Edits / inputs disturbed or receiver not returned, flags " ^ k))
   | _ -> Some "bad output syntax"
 
+(* UnifyChunks on an arbitrary chunk list: if it returns, the ranges are unified_spans of the input *)
+let spec_unify s out =
+  match field out "U" with
+  | Some u when is_panic u -> None      (* outside the property: such chunks do not come from a Diff *)
+  | Some u ->
+    if List.map M.span_of (parse_chunks u) = M.unified_spans (parse_chunks s) then None
+    else Some "UnifyChunks: the ranges of the result are not the runs of touching chunks of the input"
+  | None -> Some "bad output syntax"
+
 let spec prop inp out =
+  match words inp with
+  | ["U"; s] when prop = "C13" -> spec_unify s out
+  | _ ->
   match parse_hist inp with
   | Some h when prop = "C13" -> spec_hist h out
   | _ ->
